@@ -162,6 +162,30 @@ def bindings(ctx, target: Unit, pname: str) -> Optional[List[Val]]:
     return out or None
 
 
+def _deep_bindings(ctx, owner: Unit, pname: str, depth: int = 0) -> Optional[List[Val]]:
+    """call-site bindings of an internal helper's parameter; a binding that is itself a parameter of
+    an internal helper (the value is handed down two levels) is replaced by that parameter's bindings"""
+    b = bindings(ctx, owner, pname)
+    if not b or depth >= 3:
+        return b
+    out: List[Val] = []
+    for bv in b:
+        expanded: Set = set()
+        for x in bv:
+            if x[0] == "user" and ":" in x[1]:
+                ushort, _, p2 = x[1].partition(":")
+                up = ctx.pkg.unit(ushort) if ctx.pkg.has_unit(ushort) else None
+                if up is not None and _is_internal(up) and up is not owner:
+                    inner = _deep_bindings(ctx, up, p2, depth + 1)
+                    if inner:
+                        for iv in inner:
+                            expanded |= set(iv)
+                        continue
+            expanded.add(x)
+        out.append(frozenset(expanded))
+    return out
+
+
 def _is_internal(u: Unit) -> bool:
     parts = u.qualname.split(".")
     return any(p.startswith("_") and not p.startswith("__") for p in parts) or u.parent is not None
@@ -229,8 +253,8 @@ def r03_1(ctx) -> None:
                             continue
                         ushort, _, p = a[1].partition(":")
                         owner = ctx.pkg.unit(ushort) if ctx.pkg.has_unit(ushort) else None
-                        b = bindings(ctx, owner, p) if owner is not None and _is_internal(owner) else None
-                        library_only = bool(b) and all(x[0] in ("libfn", "cls", "lambda", "libinst", "none") for bv in b for x in bv)
+                        b = _deep_bindings(ctx, owner, p) if owner is not None and _is_internal(owner) else None
+                        library_only = bool(b) and all(x[0] in ("libfn", "cls", "lambda", "closure", "libinst", "none") for bv in b for x in bv)
                         if not (b and (_all_async(ctx, b) or library_only)):
                             ok = False
                     ctx.check(ok, "R03.1", u, call,
